@@ -282,6 +282,30 @@ def emitAll (ts : List (Scad ν)) : List Char := ts.flatMap (Scad.emit showNum)
 
 end Header
 
+/-! ## files (`Scad::save`, `scad_file!`) -/
+/-- the global settings a `scad_file!` form writes before the children -/
+inductive Settings (ν : Type) where
+  | none
+  | fa (fa : ν)
+  | fs (fs : ν)
+  | faFs (fa fs : ν)
+  | fn (n : Nat)
+
+/-- `format!("$fa={};\n", fa)` … -/
+def Settings.lines {ν : Type} (showNum : ν → List Char) : Settings ν → List Char
+  | .none => []
+  | .fa a => c!"$fa=" ++ showNum a ++ c!";\n"
+  | .fs s => c!"$fs=" ++ showNum s ++ c!";\n"
+  | .faFs a s => c!"$fa=" ++ showNum a ++ c!";\n" ++ (c!"$fs=" ++ showNum s ++ c!";\n")
+  | .fn n => c!"$fn=" ++ natDigits n ++ c!";\n"
+
+/-- the bytes of the file are the UTF-8 of: settings lines, then the emission of each child -/
+def fileContent {ν : Type} (showNum : ν → List Char) (g : Settings ν) (children : List (Scad ν)) : List Char :=
+  g.lines showNum ++ emitAll showNum children
+
+/-- `Scad::save` -/
+def saveContent {ν : Type} (showNum : ν → List Char) (t : Scad ν) : List Char := t.emit showNum
+
 /-! ## `a + b`, `a - b` -/
 def Scad.add {ν} (a b : Scad ν) : Scad ν := Scad.node .union [a, b]
 def Scad.sub {ν} (a b : Scad ν) : Scad ν := Scad.node .difference [a, b]
